@@ -10,6 +10,7 @@ statistical half (measured, not proved): after an aligned insertion / deletion /
 """
 import os
 import random
+import sys
 
 from . import c10
 from .. import chunker, harness, repodrv, tlc
@@ -95,7 +96,7 @@ def realign(rng, seed, graph):
         return {'a': 'call', 'rel': 'realign', 'reused': total - n2, 'total': total, 'cuts': [], 'starts': [], 'key': 'r', 'grp': 'r'}
 
 
-def repo_suffix_group(rng, seed, graph, piece, mn, mx):
+def repo_suffix_group(rng, seed, graph, piece, mn, mx, with_small=False):
     """the shared-suffix relation through REAL snapshots: file A (its size an exact multiple of the read-piece size, or not) followed by
     a larger file B; then 4 bytes are removed from / inserted at the front of A and the snapshot is repeated. The stream handed to the
     chunker is observed at RepositoryProps.chunkify (pieces in, chunks out): the second stream is the first one with another prefix, so from
@@ -118,6 +119,15 @@ def repo_suffix_group(rng, seed, graph, piece, mn, mx):
         for c in orig(self, src()):
             rec['cuts'].append(bytes(c))
             yield c
+    import pathlib
+    vanish = {'on': False}
+    orig_open = pathlib.Path.open
+
+    def open_(self, *a, **kw):
+        # a file that was listed but is gone when its turn to be read comes (deleted by somebody else in between)
+        if vanish['on'] and self.name == 'lock.bin' and sys._getframe(1).f_code.co_filename.endswith('replicat/repository.py'):
+            self.unlink(missing_ok=True)
+        return orig_open(self, *a, **kw)
     k = rng.randrange(1, 4)
     exact_first = rng.random() < 0.5
     la = k * piece if exact_first else k * piece + 4
@@ -129,23 +139,54 @@ def repo_suffix_group(rng, seed, graph, piece, mn, mx):
     with harness.scratch() as d:
         s = repodrv.Session(graph, d, seed=seed, min_length=mn, max_length=mx)
         extra = [s.write_file('empty.bin', b'')] if rng.random() < 0.5 else []
+        small = {}
+        if with_small:
+            # small files streamed before A: an unaligned one, and one that vanishes before the second snapshot reads it
+            small = {'tiny.bin': rng.randbytes(rng.choice([13, 5, 10, 3])), 'lock.bin': rng.randbytes(40), 'mid.bin': rng.randbytes(rng.choice([57, 64, 30]))}
+            extra += [s.write_file(n, b) for n, b in small.items()]
         B = s.write_file('zz-b.bin', Bdata)
         rrepo.RepositoryProps.chunkify = tee
+        pathlib.Path.open = open_
         c09.install(sched.Controller(piece=piece))
         try:
             A = s.write_file('a.bin', A1)
             o1 = s.snapshot('a', extra + [A, B])
             A = s.write_file('a.bin', A2)
-            o2 = s.snapshot('a', extra + [A, B])
+            vanish['on'] = with_small
+            o2 = s.snapshot('a', extra + [A, B], fault=with_small)
         finally:
+            vanish['on'] = False
+            pathlib.Path.open = orig_open
             c09.uninstall()
             rrepo.RepositoryProps.chunkify = orig
-    assert o1.ok and o2.ok and len(calls) == 2, (o1.etype, o2.etype, len(calls))
+    assert o1.ok and (o2.ok or with_small) and len(calls) == 2, (o1.etype, o2.etype, len(calls))
     streams = [b''.join(c['pieces']) for c in calls]
-    p1, p2 = len(A1), len(A2)
-    common = min(p1, p2)
-    assert streams[0][p1 - common:] == streams[1][p2 - common:], 'harness: the two streams do not share the expected suffix'
-    evs = []
+    # padding clause, stated directly: every file starts at a multiple of the alignment in the stream handed to the chunker
+    contents = [dict(small, **{'a.bin': A1, 'zz-b.bin': Bdata}), dict(small, **{'a.bin': A2, 'zz-b.bin': Bdata})]
+    starts = []
+    for i, st in enumerate(streams):
+        if i == 1 and not o2.ok:
+            continue        # the snapshot was refused because a file vanished: nothing was recorded, nothing to judge
+        for n, b in sorted(contents[i].items()):
+            if len(b) >= 10 and not (i == 1 and n == 'lock.bin'):
+                starts.append({'a': 'call', 'rel': 'starts', 'file': n, 'snapshot': i + 1, 'offset': st.find(b), 'cuts': [], 'starts': [], 'key': 's', 'grp': 's'})
+    if not o2.ok:
+        c = calls[0]
+        e = ev('repository', c['cuts'], streams[0], 'same', shift=0, frm=0)
+        e['pieces'] = [len(x) for x in c['pieces']][:12]
+        return {'min': mn, 'max': mx, 'events': [e] + starts, 'resync': R * mx, 'keyhex': '', 'stream_len': len(streams[0]),
+                'kind': 'real snapshot; the second one was refused (%s) because a listed file had vanished' % o2.etype}
+    # the shared suffix starts inside A (A2 is A1 without its first bytes, or the other way round); whatever precedes A differs
+    q1, q2 = streams[0].find(A1), streams[1].find(A2)
+    common = min(len(A1), len(A2))
+    p1, p2 = q1 + len(A1), q2 + len(A2)
+    if q1 < 0 or q2 < 0 or streams[0][p1 - common:] != streams[1][p2 - common:]:
+        # the streams are not related as expected (e.g. a file is missing from one of them): only the directly stated clauses are judged
+        c = calls[0]
+        e = ev('repository', c['cuts'], streams[0], 'same', shift=0, frm=0)
+        e['pieces'] = [len(x) for x in c['pieces']][:12]
+        return {'min': mn, 'max': mx, 'events': [e] + starts, 'resync': R * mx, 'keyhex': '', 'stream_len': len(streams[0]), 'kind': 'real snapshots, unrelated streams'}
+    evs = list(starts)
     for i, (c, pfx) in enumerate(zip(calls, (p1 - common, p2 - common))):
         e = ev('repository', c['cuts'], streams[i], 'same' if i == 0 else 'suffix', shift=pfx, frm=pfx)
         e['pieces'] = [len(x) for x in c['pieces']][:12]
@@ -178,7 +219,7 @@ def main(run):
         run.case(('keys', i))
     for i in range(6 if quick else 60):
         g = ['plain', 'shared', 'mixed'][i % 3]
-        traces.append(repo_suffix_group(rng, run.seed * 100 + i, g, [1024, 4096, 512][i % 3], 8, [128, 256][i % 2]))
+        traces.append(repo_suffix_group(rng, run.seed * 100 + i, g, [1024, 4096, 512][i % 3], 8, [128, 256][i % 2], with_small=bool(i % 2)))
         run.case(('repo-suffix', i, g))
     pad = {'min': 32, 'max': 512, 'events': [realign(rng, run.seed * 10 + i, g) for i, g in enumerate(['plain', 'shared'] if quick else ['plain', 'shared', 'same', 'indep', 'mixed', 'plain'])],
            'resync': 0, 'keyhex': '', 'stream_len': 0, 'kind': 'same file at two aligned stream positions of real snapshots'}
